@@ -25,6 +25,7 @@ type Result struct {
 // (and recorded in the result, so that the result is replayable as a script).
 func Run(sc Scenario, T time.Duration) *Result {
 	s := NewSim(sc.Max, sc.ParkAll, T)
+	s.loose = sc.Loose
 	for _, op := range sc.Ops {
 		if op.Op == "parkready" {
 			s.readyPk = true
